@@ -52,3 +52,37 @@ func TestDebugListenClose(t *testing.T) {
 		b.Close()
 	})
 }
+
+
+// TestDebugNAT: source NAT as seen by the other side, on TCP and on QUIC.
+func TestDebugNAT(t *testing.T) {
+	if os.Getenv("CQUIC_DEBUG") != "nat" {
+		t.Skip()
+	}
+	tape := simrt.NewTape(1, "dbg", 0)
+	defer simrand.Install(1)()
+	simrt.Run(t, simrt.Config{MaxSteps: 3_000_000}, tape.S, func() {
+		n := simnet.New(tape.G, simnet.Config{})
+		n.SetNAT("10.0.0.1", "5.5.5.5")
+		a, _ := simhost.New(n, simhost.Opts{Key: simhost.DetKey(1), IP: "10.0.0.1", Port: 4001, QUIC: true, WithHost: true})
+		b, _ := simhost.New(n, simhost.Opts{Key: simhost.DetKey(2), IP: "1.2.3.4", Port: 4001, QUIC: true, WithHost: true})
+		for _, target := range []ma.Multiaddr{b.Addr, b.QAddr} {
+			a.PS.ClearAddrs(b.ID)
+			a.PS.AddAddrs(b.ID, []ma.Multiaddr{target}, peerstore.PermanentAddrTTL)
+			_, err := a.Host.NewStream(context.Background(), b.ID, "/none/1")
+			fmt.Println("newstream via", target, "->", err)
+			simrt.TimeSleep(2 * time.Second)
+			for _, c := range b.Swarm.ConnsToPeer(a.ID) {
+				fmt.Println("  B sees A as", c.RemoteMultiaddr())
+			}
+			for _, c := range a.Swarm.ConnsToPeer(b.ID) {
+				fmt.Println("  A's own end", c.LocalMultiaddr())
+			}
+			a.Swarm.ClosePeer(b.ID)
+			simrt.TimeSleep(2 * time.Second)
+		}
+		fmt.Println("mappings:", n.NATMappings())
+		a.Close()
+		b.Close()
+	})
+}
